@@ -89,8 +89,10 @@ class Universe:
             "MC_KeyOrder == %s" % seq(seq(map(q, k)) for k in keypaths),
             "MC_IdAtom == (%s)" % " @@ ".join("%s :> %s" % (q(t), q("ID_" + t)) for t in self.tokens),
             "MC_PathSpecs == %s" % st(map(q, self.pathspecs)), "MC_Orders == %s" % st(map(q, self.orders)),
-            "MC_SpecKey == %s" % q(self.k), "===="]
-        consts = {c: "<- MC_" + c for c in ["JobSeq", "SP", "Render", "SepVals", "SepKeys", "KeyOrder", "IdAtom", "PathSpecs", "Orders", "SpecKey"]}
+            "MC_SpecKey == %s" % q(self.k),
+            "MC_CliFilters == %s" % st("[k |-> %s, v |-> %s]" % (q(k), q(v)) for k, v in self.cli_filters()), "===="]
+        consts = {c: "<- MC_" + c for c in ["JobSeq", "SP", "Render", "SepVals", "SepKeys", "KeyOrder", "IdAtom", "PathSpecs", "Orders", "SpecKey", "CliFilters"]}
+        consts["CliMode"] = "TRUE" if getattr(self, "cli", False) else "FALSE"
         consts["MaxSubsets"] = str(self.max_subsets)
         consts["MaxInside"] = str(getattr(self, "max_inside", 2))
         for k, v in fixed.items():
@@ -121,9 +123,16 @@ class Universe:
         """spec variable `inside` (set of (job, path)) -> {(job token, relative path text)}"""
         return frozenset((j, self.path_text(p)) for j, p in raw)
 
+    def cli_filters(self):
+        """`-f key value` selections of the command-line model: every top-level (key, value) pair that occurs, plus one that matches nothing"""
+        if not getattr(self, "cli", False):
+            return []
+        pairs = sorted({(k[0], v) for t in self.tokens for k, v in self.leaves[t] if len(k) == 1})
+        return pairs + [(pairs[0][0], "NOMATCH")]
+
     def path_arg(self, ps):
         k = self.speckey
-        return {"auto": None, "id": False, "tree": "%s/{%s}/{{auto}}" % (k, k), "flat": "%s_{%s}/{{auto:_}}" % (k, k), "const": "all"}[ps]
+        return {"auto": None, "cliauto": None, "id": False, "tree": "%s/{%s}/{{auto}}" % (k, k), "flat": "%s_{%s}/{{auto:_}}" % (k, k), "const": "all"}[ps]
 
 
 # =========================================================================================================
@@ -406,11 +415,47 @@ class Sandbox:
         finally:
             os.listdir = real_listdir
 
+    def cli_argv(self, a, variant=0, prefix=None):
+        return cli_argv(self.uni, a, variant, prefix, self.prefix)
+
+    def cli_view(self, a, variant=0, prefix=None):
+        """run the real command line in its own process (cwd = project directory; listing order pinned as for the library calls)"""
+        from .clifront import run_cli
+        uni = self.uni
+        rank = {uni.ids[t]: i for i, t in enumerate(uni.tokens)}
+        desc = a["ord"] == "desc"
+        real_listdir = os.listdir
+        wsdir = os.path.abspath(self.project.workspace)
+
+        def listdir(path="."):
+            names = real_listdir(path)
+            try:
+                if os.path.abspath(os.fspath(path)) == wsdir:
+                    names = sorted(names, key=lambda n: rank.get(n, 10**6), reverse=desc)
+            except TypeError:
+                pass
+            return names
+        argv = self.cli_argv(a, variant, prefix)
+        os.listdir = listdir                            # inherited by the forked command process
+        try:
+            code, out, err = run_cli(self.root, self.root, argv)
+        finally:
+            os.listdir = real_listdir
+        self.last_cli = (argv, code, out, err)
+        if code == 0:
+            return ("ok", None) if not out.strip() else ("exit-0-with-output", out[:200])
+        return "exit-1", err.strip()[-300:]
+
     def scratch_build(self, a, spell="list"):
         """the same call into a fresh sibling directory: the real from-scratch build"""
         self.nscratch += 1
         p = os.path.join(self.root, "scratch%d" % self.nscratch)
-        res, exc = self.create_view(a, prefix=p, spell=spell)
+        if a["kind"].startswith("cli"):
+            res, exc = self.cli_view(a, self.nscratch, prefix=p)
+            if res == "exit-1":
+                exc = RuntimeError(exc)
+        else:
+            res, exc = self.create_view(a, prefix=p, spell=spell)
         obs = self.view(p)
         shutil.rmtree(p, ignore_errors=True)
         return res, exc, obs
@@ -419,10 +464,35 @@ class Sandbox:
         shutil.rmtree(self.root, ignore_errors=True)
 
 
+def cli_argv(uni, a, variant=0, prefix=None, default_prefix="<project>/view"):
+    """`signac view ...` as a user types it for the spec's argument record a (the selection S was decided by TLC)"""
+    argv = ["view"]
+    if prefix is None and variant % 3 == 0:
+        pass                                        # default prefix: ./view of the project directory
+    elif prefix is None and variant % 3 == 1:
+        argv += ["-p", "view"]
+    else:
+        argv += ["--prefix" if variant % 2 else "-p", prefix or default_prefix]
+    path = uni.path_arg(a["ps"])
+    if path is not None:
+        argv.append(path)
+    elif variant % 2:
+        argv.append("{{auto}}")                     # the default, spelled out
+    if a["kind"] == "cli_ids":
+        toks = [t for t in uni.tokens if t in a["S"]]
+        argv += ["-j" if variant % 2 == 0 else "--job-id"] + [uni.ids[t] for t in (reversed(toks) if a["ord"] == "desc" else toks)]
+    elif a["kind"] == "cli_filter":
+        val = 987654321 if a["fv"] == "NOMATCH" else uni.valpy[a["fv"]]
+        argv += ["-f", uni.text[a["fk"]], val if isinstance(val, str) else json.dumps(val)]
+    return argv
+
+
 def res_matches(res, exc, want):
-    """exception classes with subclass tolerance"""
+    """exception classes with subclass tolerance; a command line only has an exit status (1 = any error)"""
     if want == "ok" or res == "ok":
         return res == want
+    if res == "exit-1":
+        return True
     cls = {"RuntimeError": RuntimeError, "OSError": OSError, "KeyError": KeyError}.get(want)
     return isinstance(exc, cls) if cls else res == want
 
